@@ -142,9 +142,16 @@ def _prune_cache(cfg, keep, maxn=400, max_age_s=6 * 3600):
     """Drop cache entries that are old, or beyond a generous count (parallel self-test runs share the cache)."""
     ents = [os.path.join(CACHE, e) for e in os.listdir(CACHE) if e.startswith(cfg + "-") and ".tmp" not in e]
     ents = [e for e in ents if e != keep]
-    ents.sort(key=lambda e: os.path.getmtime(e))
+
+    def mt(e):
+        try:
+            return os.path.getmtime(e)
+        except OSError:         # removed by a concurrent run
+            return 0.0
+    times = {e: mt(e) for e in ents}
+    ents.sort(key=lambda e: times[e])
     now = time.time()
-    drop = [e for e in ents if now - os.path.getmtime(e) > max_age_s]
+    drop = [e for e in ents if now - times[e] > max_age_s]
     rest = [e for e in ents if e not in drop]
     if len(rest) > maxn:
         drop += rest[:-maxn]
